@@ -118,8 +118,10 @@ def case_term(c):
 
 
 def slim(c):
-    d = {k: c.get(k) for k in ("stream", "cfg", "log", "flush", "flush_err", "ctx", "dec", "dec_err", "declog", "oracle", "features", "what")}
+    d = {k: c.get(k) for k in ("stream", "cfg", "log", "flush", "flush_err", "ctx", "dec", "dec_err", "declog", "oracle", "features", "what", "expect", "region_violation")}
     d["info"] = c.get("info", "")[:4000]
+    if len(json.dumps(d.get("log"))) > 20000:   # a payload of 100 kB: the case replays from (seed, tier)
+        d["log"] = "omitted (large payload; regenerate with the recorded seed): " + json.dumps(d["log"])[:2000]
     return d
 
 
@@ -129,7 +131,7 @@ def in_finding(c, preds):
 
 def run(chk, only_seed=None):
     quick = chk.tier == "quick"
-    n, nm, ng, ne = (150, 150, 80, 64) if quick else (1500, 1500, 600, 192)
+    n, nm, ng, ne, ni = (150, 150, 80, 64, 24) if quick else (1500, 1500, 600, 192, 300)
     seeds = [chk.seed] if quick else [chk.seed + 7919 * k for k in range(5)]
     vlib.run_xlate("undo", "UndoSwitch.v")
     ok_cases, out_cases = vlib.coq_make(["At/UndoCases.vo"])
@@ -137,7 +139,7 @@ def run(chk, only_seed=None):
     cases, secs = [], 0.0
     data = None
     for sd in seeds:
-        d, t = vlib.run_harness("undo", chk.tmp("undo_%d.json" % sd), seed=sd, n=n, malformed=nm, garbage=ng, e2e=ne, timeout=1500)
+        d, t = vlib.run_harness("undo", chk.tmp("undo_%d.json" % sd), seed=sd, n=n, malformed=nm, garbage=ng, e2e=ne, interleaved=ni, timeout=1500)
         secs += t
         for c in d["cases"]:
             c["seed"] = sd
@@ -164,6 +166,10 @@ def run(chk, only_seed=None):
             continue
         reported.add(key)
         chk.violation("undo log not restored: " + c["oracle"], {"case": slim(c), "seed": c.get("seed", chk.seed), "tier": chk.tier}, True)
+    # inside a finding's region the recorded outcome is matched exactly: anything else is a violation
+    for c in sorted((c for c in cases if c.get("region_violation")), key=lambda c: len(c.get("info", "")))[:3]:
+        chk.violation("inside the region of a known finding the code does something else than the recorded outcome: "
+                      + c["region_violation"], {"case": slim(c), "seed": c.get("seed", chk.seed), "tier": chk.tier}, True)
     hyp = [h for h in data["hyp_fail"] if not ("undo.compress.lz4" in findings and h.startswith("Lz4:"))]
     for h in hyp[:3]:
         chk.violation("compressor does not round-trip: " + h[:300], {"hypothesis": h, "seed": chk.seed}, True)
@@ -241,6 +247,8 @@ def run(chk, only_seed=None):
         "compressor_hypothesis_runs": data["hyp_runs"], "compressor_hypothesis_failures": len(data["hyp_fail"]),
         "input_distribution": dist, "emit_pairs_observed": data["emit_pairs"],
         "harness_seconds": round(secs, 1), "seeds": seeds,
+        "interleaved_flush_pairs": sum(1 for c in cases if (c.get("what") or "").startswith("interleaved")) // 2,
+        "lz4_region_cases_matched_to_expected_outcome": sum(1 for c in cases if c.get("expect")),
         "e2e_undo_rows_through_real_scanner": len(e2e_rows), "e2e_rollbacks": len(e2e_rb),
         "e2e_rollbacks_restored_exactly": sum(1 for c in e2e_rb if not c["oracle"]),
         "samples": [slim(c) for c in nontrivial[len(nontrivial) // 2:len(nontrivial) // 2 + 2]],
